@@ -7,9 +7,14 @@
    empty buffer (buf[:len(buf)-1]) or reach panic(unreachable).  All other
    indexing in string.go sits directly under a length guard and is modelled by
    total list pattern matching.
-   Runes returned by unquoteChar are [Z]: the special values are negative and
-   Go accumulates \U escapes in an int32 ([to_rune], the [wrap] flag: true = the
-   implementation (int32 wrap-around), false = the specification layer). *)
+   Runes returned by unquoteChar are [Z]: the special values are negative.  The
+   hex digits of \x \u \U escapes are accumulated in a uint32 (eight digits fit)
+   and compared with utf8.MaxRune before the conversion to rune: [to_rune] with
+   [wrap] = false, the mathematical value.  [wrap] = true is the accumulator of
+   the code before fix unquote-U (an int32 rune that wraps at 2^31, so that
+   values >= 2^31 were taken for the negative sentinels); it is kept only as a
+   regression layer: the round-trip theorems are independent of it and the check
+   uses it to name that regression. *)
 From Verif Require Export Utf8.Model Lit.Quote.
 From Coq Require Export ZArith.
 
@@ -174,8 +179,8 @@ Fixpoint hex_value (ds : str) (acc : N) : option N :=
   end.
 
 Section Unquote.
-  (* true: rune is int32, the accumulated \U value wraps (the implementation);
-     false: mathematical value (specification layer) *)
+  (* false: the mathematical value (uint32 accumulator: the implementation and
+     the specification); true: an int32 accumulator that wraps (regression layer) *)
   Variable wrap : bool.
 
   Definition to_rune (v : N) : Z :=
@@ -366,5 +371,7 @@ Section Unquote.
     end.
 End Unquote.
 
-Definition unquote_impl := unquote true.
+Definition unquote_impl := unquote false.
 Definition unquote_spec := unquote false.
+(* the behaviour before fix unquote-U: \U digits accumulated in an int32 *)
+Definition unquote_int32 := unquote true.
